@@ -45,7 +45,7 @@ impl SecretFlags {
 }
 
 // ---- std::collections::HashSet<T> ---------------------------------------------------
-/// std HashSet<T, RandomState>.  View: the finite set of element views.  The
+/// std HashSet<T, RandomState>.  View: the (finite, vstd `Set`) set of element views.  The
 /// ITERATION ORDER is a further, uninterpreted attribute of the exec value
 /// (`order`): it depends on the per-instance random hasher keys and on the
 /// insertion history, not on the set of elements alone.
@@ -62,7 +62,7 @@ impl<T: View> HashSet<T> {
 }
 /// every element exactly once
 pub broadcast axiom fn axiom_hashset_order<T: View>(s: HashSet<T>)
-    ensures (#[trigger] s.order()).no_duplicates(), s.order().to_set() == s@, s@.finite();
+    ensures (#[trigger] s.order()).no_duplicates(), s.order().to_set() == s@;
 
 impl<T: View> Default for HashSet<T> {
     #[verifier::external_body]
